@@ -67,6 +67,7 @@ Section HashModel.
   Variable h : Z -> Z.               (* the hash function: arbitrary *)
   Variable cap : Z.                  (* Bucket::maxCount *)
   Variable wf0 : bool.               (* Bucket::WasFull() of a cleared bucket *)
+  Variable wfThr : Z.                (* WasFull() becomes (and stays) true once the bucket has held wfThr items (<= cap) *)
   Variable start : Z -> Z -> Z.      (* GetStartBucketIndex hashCode bucketCount *)
   Variable next : Z -> Z -> Z -> Z.  (* GetNextBucketIndex bucketIndex bucketCount probe *)
   Variable logStart : Z.
@@ -124,7 +125,7 @@ Section HashModel.
     | Some (idx, probe) =>
       let b := getb t idx in
       let its := items b ++ [kv] in
-      let t1 := setb t idx (mkB its (wasFull b || (cap <=? Z.of_nat (length its))) (bound b)) in
+      let t1 := setb t idx (mkB its (wasFull b || (wfThr <=? Z.of_nat (length its))) (bound b)) in
       let hb := getb t1 i0 in
       Some (setb t1 i0 (mkB (items hb) (wasFull hb) (upd_bound (bound hb) probe)))
     end.
